@@ -646,7 +646,7 @@ class BaseMatcher:
         logger.info("Build lattice in {} seconds".format(t_delta))
 
         # Backtrack to find best path
-        if not self.early_stop_idx:
+        if self.early_stop_idx is None:
             one_no_stop = False
             for m in self.lattice[len(path) - 1].values_all():  # todo: could be values(0) ?
                 if not m.stop:
@@ -1537,7 +1537,7 @@ class BaseMatcher:
     def inspect_early_stopping(self):
         """Analyze the lattice and try to find most plausible reason why the
         matching stopped early and print to stdout."""
-        if not self.early_stop_idx:
+        if self.early_stop_idx is None:
             print("No early stopping.")
             return
         col = self.lattice[self.early_stop_idx - 1]
@@ -1560,7 +1560,7 @@ class BaseMatcher:
         :param nb_obs: How many last matched observations to consider
         """
         import heapq
-        if not self.early_stop_idx:
+        if self.early_stop_idx is None:
             col_idx = len(self.lattice) - 1
         else:
             col_idx = self.early_stop_idx - 1
